@@ -294,6 +294,7 @@ var standingAssumptions = []string{
 	"a handler that returns an error or panics leaves no state change (baseapp); begin/end blockers have no such net",
 	"external code (Cosmos SDK, std lib, sao-did) behaves as the encoder rules in govc/ext.go, govc/store.go state; each rule used is listed in trusted_base",
 	"protobuf marshal/unmarshal round-trips values; store contents decode to the expected type",
+	"account address strings are canonical bech32 (addrStr(addrOf(s)) == s for valid s): upper-case encodings of the same address are not considered",
 	"key constructors are injective; prefix stores with different prefix constants are disjoint",
 	"gas metering, events, logging and telemetry are not modelled",
 	"the wiring of keepers and store keys in app/app.go is as the interface binding table states",
